@@ -151,6 +151,36 @@ struct XofLike {
 
 static Bytes slice(const Bytes &b, size_t pos, size_t n) { return Bytes(b.begin() + pos, b.begin() + pos + n); }
 
+// Another, complete operation of the same family on other inputs, run between two calls on the object under
+// test: the library keeps every session in the caller's object, so a second user in between (same thread,
+// distinct object) must not change what the first one gets.  `point` says where we are in the session; the
+// case selects one point (or none) from its data.
+static void interloper(const KV &c, int iface, unsigned point) {
+    Bytes key = tobytes(c, "key"), junk = tobytes(c, "junk"), data = tobytes(c, "data");
+    if ((junk.size() + data.size()) % 5 != point) return;
+    Bytes key2 = key; if (key2.empty()) key2.push_back(0x5c); else key2[0] ^= 0x41;
+    bool fixed_key = iface == I_PRF || iface >= I_ENC128;
+    if (!fixed_key) key2.push_back(0x33);
+    Bytes msg = junk; msg.push_back(0x99);
+    Buf k(key2), m(msg), o(40);
+    switch (iface) {
+    case I_HASH: ascon_hash(o.p, m.p, m.n); break;
+    case I_HASHA: ascon_hasha(o.p, m.p, m.n); break;
+    case I_XOF: ascon_xof(o.p, m.p, m.n); break;
+    case I_XOFA: ascon_xofa(o.p, m.p, m.n); break;
+    case I_PRF: ascon_prf(o.p, 20, m.p, m.n, k.p); break;
+    case I_KMAC: ascon_kmac(k.p, k.n, m.p, m.n, m.p, m.n % 9, o.p, 32); break;
+    case I_KMACA: ascon_kmaca(k.p, k.n, m.p, m.n, m.p, m.n % 9, o.p, 32); break;
+    case I_KDF: ascon_kdf(o.p, 20, k.p, k.n, m.p, m.n % 9); break;
+    case I_KDFA: ascon_kdfa(o.p, 20, k.p, k.n, m.p, m.n % 9); break;
+    case I_HMAC: ascon_hmac(o.p, k.p, k.n, m.p, m.n); break;
+    case I_HMACA: ascon_hmaca(o.p, k.p, k.n, m.p, m.n); break;
+    case I_HKDF: ascon_hkdf(o.p, 40, m.p, m.n, k.p, k.n, m.p, m.n % 9); break;     // the other key serves as (possibly long) salt
+    case I_HKDFA: ascon_hkdfa(o.p, 40, m.p, m.n, k.p, k.n, m.p, m.n % 9); break;
+    default: { Bytes nonce = tobytes(c, "nonce"); lib::enc_generic(lib::AEAD_ENC[(iface - I_ENC128) % 3], key2, nonce, msg, msg); break; }
+    }
+}
+
 static std::string check_xoflike(const KV &c, int iface) {
     Bytes key = tobytes(c, "key"), data = tobytes(c, "data"), custom = tobytes(c, "custom"), junk = tobytes(c, "junk");
     size_t outlen = (iface <= I_HASHA) ? 32 : tonum(c, "outlen");
@@ -213,8 +243,10 @@ static std::string check_xoflike(const KV &c, int iface) {
     }
     size_t copy_at = tonum(c, "copy_at"), copy_out_at = tonum(c, "copy_out_at");
     size_t pos = 0, idx = 0;
+    interloper(c, iface, 0);
     if (absorbs) {
         for (uint64_t ch : in_chunks) {
+            if (idx == 1) interloper(c, iface, 1);
             if (a.can_copy() && idx == copy_at && !have_copy) { a.copy_from(a); b.copy_from(a); have_copy = true; }   // a copy onto itself first: must change nothing
             if (idx == pad_at) { a.pad(); if (have_copy) b.pad(); }
             Bytes piece = slice(data, pos, ch);
@@ -227,7 +259,9 @@ static std::string check_xoflike(const KV &c, int iface) {
     Bytes got, gotb;
     idx = 0;
     bool copied_in_squeeze = false;
+    interloper(c, iface, 2);
     for (uint64_t ch : out_chunks) {
+        if (idx == 1) interloper(c, iface, 3);
         if (iface >= I_XOF && a.can_copy() && idx == copy_out_at && !have_copy && idx > 0) { b.copy_from(a); have_copy = true; copied_in_squeeze = true; gotb = got; }
         Bytes o = a.squeeze(ch);
         got.insert(got.end(), o.begin(), o.end());
@@ -284,8 +318,11 @@ static std::string check_hmac(const KV &c, int iface) {
         if (tonum(c, "junk_squeeze")) { Buf t(32); if (a) ascon_hmaca_finalize(&sa, k2.p, k2.n, t.p); else ascon_hmac_finalize(&s, k2.p, k2.n, t.p); }
         if (a) ascon_hmaca_reinit(&sa, k.p, k.n); else ascon_hmac_reinit(&s, k.p, k.n);
     }
-    size_t pos = 0;
-    for (uint64_t ch : in_chunks) { Buf p(slice(data, pos, ch)); if (a) ascon_hmaca_update(&sa, p.p, p.n); else ascon_hmac_update(&s, p.p, p.n); pos += ch; }
+    size_t pos = 0, idx = 0;
+    interloper(c, iface, 0);
+    for (uint64_t ch : in_chunks) { if (idx++ == 1) interloper(c, iface, 1); Buf p(slice(data, pos, ch)); if (a) ascon_hmaca_update(&sa, p.p, p.n); else ascon_hmac_update(&s, p.p, p.n); pos += ch; }
+    interloper(c, iface, 2);
+    interloper(c, iface, 3);
     if (a) { ascon_hmaca_finalize(&sa, k.p, k.n, o.p); ascon_hmaca_free(&sa); } else { ascon_hmac_finalize(&s, k.p, k.n, o.p); ascon_hmac_free(&s); }
     if (o.bytes() != w.bytes()) return std::string(INAME[iface]) + ": chunked updates (" + tostr(c, "in_chunks") + "; reinit=" + tostr(c, "reinit") + ") differ from the one-shot result";
     return "";
@@ -320,7 +357,12 @@ static std::string check_hkdf(const KV &c, int iface) {
         else { ascon_hkdf_expand(&st, in.p, in.n, t.p, t.n); ascon_hkdf_extract(&st, k.p, k.n, s.p, s.n); }
     }
     Bytes got;
+    size_t oidx = 0;
+    interloper(c, iface, 0);
+    interloper(c, iface, 2);
     for (uint64_t ch : out_chunks) {
+        if (oidx == 1) interloper(c, iface, 1);
+        if (oidx++ == 2) interloper(c, iface, 3);
         Buf o(ch);
         int r = a ? ascon_hkdfa_expand(&sta, in.p, in.n, o.nn(), ch) : ascon_hkdf_expand(&st, in.p, in.n, o.nn(), ch);
         if (r != 0) return "hkdf expand returned " + std::to_string(r);
@@ -367,10 +409,13 @@ static std::string check_aead_inc(const KV &c, int alg, bool decrypt) {
     } else {
         A::init(s, n.p, k.p);
     }
+    interloper(c, alg + I_ENC128, 0);
     A::start(s, a.p, a.n);
+    interloper(c, alg + I_ENC128, 1);
     Bytes got;
     size_t pos = 0, idx = 0;
     for (uint64_t ch : chunks) {
+        if (idx == 1) interloper(c, alg + I_ENC128, 2);
         Bytes piece = slice(input, pos, ch);
         if ((inplace >> (idx % 8)) & 1) {
             Buf io(piece);
@@ -386,6 +431,7 @@ static std::string check_aead_inc(const KV &c, int alg, bool decrypt) {
     }
     int rc = 0;
     Bytes tag(ct.end() - 16, ct.end());
+    interloper(c, alg + I_ENC128, 3);
     if (decrypt) { Buf t(tag); rc = A::decf(s, t.p); }
     else { Buf t(16); A::encf(s, t.p); if (t.bytes() != tag) { A::free_(s); xfree(s, sizeof(typename A::state_t)); return std::string(decrypt ? "dec" : "enc") + ": incremental tag (chunks " + tostr(c, "in_chunks") + ", inplace mask " + num(inplace) + ", reinit=" + tostr(c, "reinit") + ") differs from the one-shot tag"; } }
     A::free_(s);
